@@ -29,3 +29,5 @@ import RosedVerif.Model.GenEq.InsertTable
 import RosedVerif.Model.GenEq.BlockOps
 import RosedVerif.Model.GenEq.TwoCol
 import RosedVerif.Model.GenEq.DefTable
+import RosedVerif.Model.GenEq.AlignOpts
+import RosedVerif.Model.GenEq.JustifyOpts
